@@ -180,6 +180,19 @@ func runProperty(id, tier string, keep bool, only string, replayPath string) int
 		case "fc":
 			env["VERIF_FC"] = filepath.Join(bin, "fc")
 			build("fc", "fc", env["VERIF_FC"])
+		case "fcperm":
+			// fc built against a dict package with controlled enumeration order (build-time overlay)
+			ov, err := pipeline.DictShim(snap, scratch)
+			if err != nil {
+				fmt.Fprintf(os.Stderr, "note: dict order shim not available (%v); only natural map order is used\n", err)
+				break
+			}
+			env["VERIF_FCPERM"] = filepath.Join(bin, "fcperm")
+			wg.Add(1)
+			go func() {
+				defer wg.Done()
+				resCh <- buildRes{"fc with the dict-order overlay", pipeline.BuildTool(snap, "fc", env["VERIF_FCPERM"], "-overlay", ov)}
+			}()
 		case "tinyfo":
 			env["VERIF_TINYFO"] = filepath.Join(bin, "tinyfo")
 			build("tinyfo", "tinyfo", env["VERIF_TINYFO"])
